@@ -3,7 +3,7 @@
 //!
 //! replay (spec -> code), cases of spec/mc/MC_Unitary.tla:
 //!   kind "gate": a modifier stack grown by the builder machine with its expected sparse symbolic
-//!       matrix: evaluated for five parameter assignments and compared (1e-10) with `Gate::to_unitary`
+//!       matrix: evaluated for 19 parameter assignments and compared (1e-10) with `Gate::to_unitary`
 //!       of the gate written directly AND built through `Gate::dagger/controlled/forked` (the two
 //!       values must be equal), with `Program::to_unitary` of the one-gate program; unitarity.
 //!   kind "prog": {n, gates, mats, dagger}: `Program::to_unitary` against the ordered product of the
@@ -216,7 +216,8 @@ pub fn drive(ctx: &Ctx) -> Summary {
     for h in 0..count {
         let n = rng.gen_range(3..=max_n.max(3));
         // parameters theta_1 .. theta_16 shared by every gate of the history (depth <= 4 forks)
-        let thetas = generic_thetas(&mut rng, 16);
+        // theta_1 .. theta_16 from the four magnitude bands in turn (inside / outside (-2 pi, 2 pi), large)
+        let thetas = generic_thetas(&mut rng, 16, 4 + h % 4);
         util::emit(&mut out, &json!({"ev": "reset", "n": n, "thetas": theta_strings(&thetas)}));
         let mut o = Outcome::ok(true);
         let mut events = 1;
